@@ -104,6 +104,31 @@ def gen_case(rng):
     return {'uris': uris, 'key': key}
 
 
+def gen_hist(rng):
+    """A capability object over its life: built from a list, then added to / removed from, with lookups in between."""
+    uris = [gen_uri(rng) for _ in range(rng.choice([0, 1, 2, 3, 5]))]
+    pool = list(uris) + [gen_uri(rng) for _ in range(3)]
+    ops = []
+    for _ in range(rng.randint(3, 14)):
+        r = rng.random()
+        cand = set()
+        for u in pool:
+            cand |= spec_abbrev(u)
+        if r < 0.2:
+            ops.append(['a', rng.choice(pool)])
+        elif r < 0.4:
+            ops.append(['r', rng.choice(pool + [rng.choice(pool).split('?')[0]])])
+        elif r < 0.85:
+            key = rng.choice(sorted(cand)) if cand and rng.random() < 0.6 else rng.choice(pool + [':candidate', ':base', rng.choice(pool).split('?')[0]])
+            ops.append(['g', key])
+            if rng.random() < 0.4:
+                ops.append(['g', key])          # the same question twice
+        else:
+            ops.append(['k'])
+    ops.append(['k'])
+    return {'kind': 'hist', 'uris': uris, 'ops': ops}
+
+
 class C08(Check):
     ID = 'C08'
     PROPS_MODULE = 'NcVerif.Props.C08'
@@ -111,7 +136,7 @@ class C08(Check):
             'over-long, non-IETF look-alikes, IETF URNs embedded in vendor URIs or in upper case, odd parameter strings, duplicates) x one query (advertised full URI, '
             'shorthand of a present URI, shorthand of an absent one, URI without its parameters, junk). A case is '
             'non-trivial when the list is non-empty and the lookup either succeeds or walks at least one IETF-prefixed URI; '
-            'distinct = distinct (uris, key).')
+            'distinct = distinct (uris, key). Plus HISTORIES: an object built from a list, then 3-14 add / remove / lookup / iteration steps (the same lookup often twice), compared step by step with the model and with an independent ordered-set object.')
     TRUST = ['Python str.split/startswith semantics as modelled in Model/Basic.lean (compared on every case)']
     ASSUMPTIONS = ['a URI with a second "?" has unspecified parameters (three-valued oracle)']
 
@@ -126,7 +151,7 @@ class C08(Check):
             {'uris': [], 'key': ':base'},
         ]
         abbr = [{'kind': 'abbr', 'uri': u} for u in LOOKALIKE] + [{'kind': 'abbr', 'uri': gen_uri(rng)} for _ in range(n // 4)]
-        return fixed + [gen_case(rng) for _ in range(n)] + abbr
+        return fixed + [gen_case(rng) for _ in range(n)] + abbr + [gen_hist(rng) for _ in range(n // 4)]
 
     def run_impl(self, case):
         import logging; logging.disable(logging.CRITICAL)
@@ -136,6 +161,30 @@ class C08(Check):
                 return {'abbr': sorted(Capability.from_uri(case['uri']).get_abbreviations())}
             except Exception as e:
                 return {'abbr': 'exc:' + type(e).__name__}
+        if case.get('kind') == 'hist':
+            try:
+                caps = Capabilities(case['uris'])
+                outs = []
+                for op in case['ops']:
+                    if op[0] == 'a':
+                        caps.add(op[1])
+                    elif op[0] == 'r':
+                        caps.remove(op[1])
+                    elif op[0] == 'g':
+                        try:
+                            c = caps[op[1]]
+                            o = ['found', c.namespace_uri, sorted([k, v] for k, v in c.parameters.items())]
+                        except KeyError:
+                            o = ['keyerror']
+                        if (op[1] in caps) != (o[0] == 'found'):
+                            o.append('in-disagrees')
+                        outs.append(o)
+                    else:
+                        ks = list(caps)
+                        outs.append(['keys', ks] + ([] if len(caps) == len(ks) else ['len=%d' % len(caps)]))
+                return {'outs': outs}
+            except Exception as e:
+                return {'outs': 'exc:' + type(e).__name__ + ': ' + str(e)[:60]}
         try:
             caps = Capabilities(case['uris'])
         except Exception as e:
@@ -157,11 +206,30 @@ class C08(Check):
         return res
 
     def model_lines(self, case):
+        if case.get('kind') == 'hist':
+            toks = []
+            for op in case['ops']:
+                toks += [op[0]] + ([hexs(op[1])] if len(op) > 1 else [])
+            return ['caps hist %s %s' % (hlist(hexs(u) for u in case['uris']), ' '.join(toks))]
         if case.get('kind') == 'abbr':
             return ['caps abbrev ' + hexs(case['uri'].split('?')[0])]
         return ['caps get %s %s' % (hlist(hexs(u) for u in case['uris']), hexs(case['key']))]
 
     def model_obs(self, case, outs):
+        if case.get('kind') == 'hist':
+            res = []
+            for part in outs[0].split(' ; '):
+                t = part.split(' ')
+                if t[0] == 'found':
+                    ps = [p.split('=') for p in unhlist(t[2])]
+                    res.append(['found', unhexs(t[1]), sorted([unhexs(k), unhexs(v)] for k, v in ps)])
+                elif t[0] == 'keyerror':
+                    res.append(['keyerror'])
+                elif t[0] == 'keys':
+                    res.append(['keys', [unhexs(x) for x in unhlist(t[1])]])
+                else:
+                    res.append(['driver', part[:40]])
+            return {'outs': res}
         if case.get('kind') == 'abbr':
             return {'abbr': sorted(unhexs(x) for x in unhlist(outs[0]))}
         t = outs[0].split(' ')
@@ -177,6 +245,41 @@ class C08(Check):
         return res
 
     def oracle(self, case, io):
+        if case.get('kind') == 'hist':
+            if isinstance(io['outs'], str):
+                return ('C08:non-keyerror-exception', 'a history of add / remove / lookup raised %s' % io['outs'])
+            # independent abstract object: an ordered set of URIs; a lookup answers as a fresh object holding that set would
+            cur = list(dict.fromkeys(case['uris']))
+            it = iter(io['outs'])
+            for n, op in enumerate(case['ops']):
+                if op[0] == 'a':
+                    if op[1] not in cur:
+                        cur.append(op[1])
+                elif op[0] == 'r':
+                    cur = [u for u in cur if u != op[1]]
+                else:
+                    o = next(it)
+                    if op[0] == 'k':
+                        if o != ['keys', cur]:
+                            return ('C08:iteration-after-history', 'after %s the object lists %s, the URIs added and not removed are %s' % (case['ops'][:n], o[1:], cur))
+                        continue
+                    key = op[1]
+                    if 'in-disagrees' in o:
+                        return ('C08:in-vs-getitem', '`in` disagrees with lookup for %r after %s' % (key, case['ops'][:n]))
+                    holders = [u for u in cur if key in spec_abbrev(u)]
+                    if key in cur:
+                        ok = o[0] == 'found' and o[1] == key.split('?')[0]
+                    elif holders:
+                        ok = o[0] == 'found' and o[1] in [h.split('?')[0] for h in holders]
+                    else:
+                        ok = o[0] == 'keyerror'
+                    if not ok:
+                        return ('C08:lookup-after-history', 'after %s (object holds %s) the lookup of %r gave %s' % (case['ops'][:n], cur, key, o[:2]))
+                    if o[0] == 'found' and (key in cur or len(holders) == 1):
+                        src = key if key in cur else holders[0]
+                        if src.count('?') <= 1 and dict(map(tuple, o[2])) != spec_params(src):
+                            return ('C08:parameters', 'after %s the parameters of %r are exposed as %r' % (case['ops'][:n], src, o[2]))
+            return None
         if case.get('kind') == 'abbr':
             want = sorted(spec_abbrev(case['uri']))
             if io['abbr'] != want:
@@ -206,6 +309,8 @@ class C08(Check):
         return None
 
     def nontrivial(self, case, io):
+        if case.get('kind') == 'hist':
+            return any(op[0] in 'ar' for op in case['ops'])
         if case.get('kind') == 'abbr':
             return bool(io['abbr'])
         return bool(case['uris']) and (io['r'] == 'found' or any(u.startswith('urn:ietf:params') for u in case['uris']))
@@ -214,6 +319,17 @@ class C08(Check):
         return [gen_case(rng) for _ in range(60000)]
 
     def shrink(self, case, still_fails):
+        if case.get('kind') == 'hist':
+            cur = case
+            changed = True
+            while changed:
+                changed = False
+                for i in range(len(cur['ops'])):
+                    cand = dict(cur, ops=cur['ops'][:i] + cur['ops'][i + 1:])
+                    if cand['ops'] and still_fails(cand):
+                        cur, changed = cand, True
+                        break
+            return cur
         if case.get('kind') == 'abbr':
             return case
         cur = case
